@@ -32,11 +32,14 @@ pub struct Opts {
     pub canary: bool,
     /// C08 (1): no "should never happen" / error line in the log
     pub check_log: bool,
+    /// C08 (3): right after a limit error re-read what the public API shows of every live object
+    /// (is_connected on both ends, has_response) and compare it with the unchanged model
+    pub recheck_after_limit: bool,
 }
 
 impl Default for Opts {
     fn default() -> Self {
-        Opts { address_probe: true, canary: true, check_log: false }
+        Opts { address_probe: true, canary: true, check_log: false, recheck_after_limit: false }
     }
 }
 
@@ -238,7 +241,11 @@ impl<S: Service> Interp<S> {
         if self.stopped {
             return Ok(false);
         }
+        let limit_errors_before: u64 = self.m.ev.limit_errors.values().sum();
         let r = self.step_inner(op);
+        if self.opts.recheck_after_limit && r.is_ok() && self.m.ev.limit_errors.values().sum::<u64>() > limit_errors_before {
+            self.recheck(op)?;
+        }
         if std::env::var("RR_TRACE").is_ok() {
             eprintln!("  {op:?} -> {:?} | pend {:?} ars {:?} resps {:?} loans {:?}/{:?} inbox {:?} conns {:?}", r.as_ref().map_err(|f| f.message.clone()), self.m.live_pendings(), self.m.live_ars(), self.m.live_resps(), self.m.live_req_loans(), self.m.live_resp_loans(),
                 self.m.servers.iter().map(|s| s.inbox.iter().map(|(c, q)| (*c, q.iter().map(|e| (e.req, e.uncertain)).collect::<Vec<_>>())).collect::<Vec<_>>()).collect::<Vec<_>>(),
@@ -972,6 +979,29 @@ impl<S: Service> Interp<S> {
             self.m.drop_resp_loan_apply(*l);
         }
         Ok(true)
+    }
+
+    /// C08 (3): a refused call must not have changed anything the API shows
+    fn recheck(&mut self, op: &Op) -> Result<(), Failure> {
+        for r in self.m.live_pendings() {
+            let (exp, hz) = self.m.pr_is_connected_expect(r);
+            let blocked = hz.as_ref().map(|h| self.open.has(h.sig)).unwrap_or(false);
+            if !blocked && hz.is_none() {
+                let got = self.pendings[r].as_ref().unwrap().is_connected();
+                check!(self, exp.admits(got), "limit.side_effect", "after the refused {op:?}: PendingResponse::is_connected() of request {:?} = {got}, expected {exp:?}", self.tag(r));
+            }
+            let (exp, hz) = self.m.has_response_expect(r);
+            if hz.is_none() {
+                let got = self.pendings[r].as_ref().unwrap().has_response();
+                check!(self, got == exp, "limit.side_effect", "after the refused {op:?}: PendingResponse::has_response() of request {:?} = {got}, expected {exp}", self.tag(r));
+            }
+        }
+        for a in self.m.live_ars() {
+            let exp = self.m.ar_is_connected_expect(a);
+            let got = self.ars[a].as_ref().unwrap().is_connected();
+            check!(self, got == exp, "limit.side_effect", "after the refused {op:?}: ActiveRequest::is_connected() of request {:?} = {got}, expected {exp}", self.tag(self.m.ars[a].req));
+        }
+        Ok(())
     }
 
     // ------------------------------------------------------------------------------------------ invariants
